@@ -25,9 +25,9 @@ CHECKS['C16'] = dict(
     design='§5 C16')
 
 CHECKS['C04'] = dict(
-    technique='Lean 4 theorems about the definition-loader model (first-wins / last-wins merges, stable size order, fixed-before-variable, masks) + kernel-checked facts regenerated from /repo + exhaustive differential load of all bundled definition sets + generated sets against a naive oracle',
+    technique='Lean 4 theorems about the definition-loader model (first-wins / last-wins merges, stable size order, fixed-before-variable, masks, parseSection_flat: interface recursion = left fold over the depth-first visiting order) + kernel-checked facts regenerated from /repo + exhaustive differential load of all bundled definition sets + generated sets against a naive oracle',
     text='C04 theorems prove for every method/property list: the merge of sections is keepFirst / keepLast of the concatenation, the exposed list is a size-sorted stable permutation of the filtered list, every variable-size method follows every fixed-size one, internal lists are mask-selected sublists, entity ids are 1-based positions; Generated facts (masks, flag values, INFINITY, default header, SIMPLE_TYPES) are re-extracted from the live code and re-checked by `decide`. The loader model is tied to the real Definitions() exhaustively on all bundled sets (XML trees in, full views compared) and on generated sets, where a third naive implementation of the stated rules is the oracle.',
-    note='lxml parsing is external (the harness parses with its own options); interface traversal order (depth-first, declaration order) is model code exercised by the correspondence, not a separate theorem; <Default> values are modelled only as accepted/refused.',
+    note='lxml parsing is external (the harness parses with its own options); parseSection_flat is stated for parses that succeed (error precedence between a missing interface file and a bad type is not characterised); <Default> values are modelled only as accepted/refused.',
     design='§5 C04')
 CHECKS['C05'] = dict(
     technique='Lean 4 invariant/frame theorems over the world model (step_frame, step_wf, play_wf, entityProperty_lww, property_history_lww over whole histories, player_id_base) + differential play of generated histories in 4 dialects (world compared after every packet) + recordings through the model as independent decoder',
